@@ -796,7 +796,13 @@ Inductive wcall :=
 | InsertColumn (x : anyarg) | DeleteColumn (x : anyarg) | SetColumnValues (x : anyarg) (r : list cellv)
 | RowSetValue (j : Z) (x : anyarg) (v : Z) | RowInsertCell (j : Z) (x : anyarg) (v : Z) | RowDeleteCell (j : Z) (x : anyarg)
 | RowSetValues (j : Z) (x : anyarg) (r : list cellv)
-| FormsOnly (id : Z).       (* set_span / del_span / transpose: only "all forms leave the same table" is checked *)
+| SetSpan (c : coordarg) | DelSpan (c : coordarg) (spanned : area) | Transpose (c : option coordarg)
+| FormsOnly (id : Z).       (* only "all forms leave the same table" is checked *)
+(* span-aware abstraction of the harness: a spanning cell is coded value*100 + 10*rows + cols, a covered cell -5 - value *)
+Definition v0 (v : cellv) : Z := match v with Some a => a | None => 0 end.
+Definition cell_at (g : grid) (x y : Z) : cellv := match nthZ (match nthZ g y with Some r => r | None => [] end) x with Some v => v | None => None end.
+Definition transpose_block (m : list (list cellv)) : list (list cellv) :=
+  match m with [] => [] | r0 :: _ => map (fun i => map (fun r => nth i r None) m) (seq 0 (length r0)) end.
 Definition set_cell_at (g : grid) (x y : Z) (v : cellv) : grid :=
   set_nth (Z.to_nat y) [] (set_nth (Z.to_nat x) None v (the_row g y)) g.
 Fixpoint set_run (g : grid) (x y : Z) (vals : list cellv) : grid :=
@@ -830,6 +836,35 @@ Definition after (w : Z) (g : grid) (c : wcall) : option grid :=
   | RowInsertCell j x v => x' <- translate_from_any x (lenZ (the_row g j)) 0 ;; Some [insert_nth (Z.to_nat x') None (Some v) (the_row g j)]
   | RowDeleteCell j x => x' <- translate_from_any x (lenZ (the_row g j)) 0 ;; Some [remove_nth (Z.to_nat x') (the_row g j)]
   | RowSetValues j x r => x' <- translate_from_any x (lenZ (the_row g j)) 0 ;; Some (set_run [the_row g j] x' 0 r)
+  | SetSpan c =>
+      l <- convert_any c ;; q <- set_range l ;;
+      match q with
+      | (Some x0, Some y0, Some z0, Some t0) =>
+        if (x0 =? z0) && (y0 =? t0) then Some g else
+        x' <- inc_opt (Some x0) w ;; y' <- inc_opt (Some y0) h ;; z' <- inc_opt (Some z0) w ;; t' <- inc_opt (Some t0) h ;;
+        match x', y', z', t' with
+        | Some x, Some y, Some z, Some t =>
+          let covered := fold_left (fun acc j => fold_left (fun acc' i => set_cell_at acc' i j (Some (-5 - v0 (cell_at g i j)))) (zrange x z) acc) (zrange y t) g in
+          Some (set_cell_at covered x y (Some (v0 (cell_at g x y) * 100 + 10 * (t - y + 1) + (z - x + 1))))
+        | _, _, _, _ => None
+        end
+      | _ => None
+      end
+  | DelSpan c _ => xy <- (l <- convert_any c ;; match l with [Some x; Some y] | [Some x; Some y; _; _] => Some (x, y) | _ => None end) ;; Some g
+  | Transpose c =>
+      match c with
+      | None => Some (match g with [] => [] | _ => transpose_block g end)
+      | Some c' =>
+        q <- translate_table w h c' ;;
+        let '(x0, y0, z0, t0) := q in
+        let x := match x0 with None => 0 | Some v => Z.min v (w - 1) end in
+        let z := match z0 with None => w - 1 | Some v => Z.min v (w - 1) end in
+        let y := match y0 with None => 0 | Some v => Z.min v (h - 1) end in
+        let t := match t0 with None => h - 1 | Some v => Z.min v (h - 1) end in
+        let data := map (fun j => map (fun i => cell_at g i j) (zrange x z)) (zrange y t) in
+        let g1 := if (z - x) =? (t - y) then g else set_block g x y (map (map (fun _ => None)) data) in
+        Some (set_block g1 x y (transpose_block data))
+      end
   | FormsOnly _ => None
   end.
 (* 1: two forms of the same address leave different tables   2: the table after is not the model's
@@ -852,12 +887,14 @@ WRITERS = ["SetValue", "SetCell", "SetValues", "InsertCell", "DeleteCell", "SetR
 
 
 def gen_write_case(rng, tier):
-    # writers run on rectangular tables without repetition: what a writer does to a repeated run is C01's subject
-    tb = gen_table(rng, repeats=False, ragged=False)
+    # rectangular tables; half of them store repeated rows / cells / columns as runs (the writers must address the same logical
+    # cell whatever the run-length layout: F1..F4, F7 are repaired in the tree under test)
+    m = rng.choice(WRITERS)
+    # (transpose of a table with rows of different widths raises: F21, C17's subject — transpose is driven on rectangular tables)
+    tb = gen_table(rng, repeats=rng.random() < .5, ragged=(m != "Transpose" and rng.random() < .15))
     w = sum(r for _, r in tb["cols"]); h = sum(r for r, _ in tb["rows"])
     if w == 0 or h == 0:
         tb = dict(cols=[(0, 1), (1, 1)], rows=[(1, [(11, 1), (12, 1)]), (1, [(13, 1), (None, 1)])]); w = h = 2
-    m = rng.choice(WRITERS)
     x = rng.randrange(0, w); y = rng.randrange(0, h)
     j = y
     nv = [900 + i for i in range(4)]
@@ -869,12 +906,19 @@ def gen_write_case(rng, tier):
                  ("s", cell_name(x, y) + ":" + cell_name(x + 1, y + 1)), ("t", [x, y, x + 1, y + 1])]
     yforms = [("s", str(y + 1)), ("i", y), ("i", y - h), ("s", cell_name(x, y))]
     xforms = [("s", col_name(x)), ("i", x), ("i", x - w), ("s", cell_name(x, y)), ("s", col_name(x).lower())]
+    if m.startswith("Row"):
+        # inside a row a negative number counts from the end of THAT row (rows may be stored shorter than the table)
+        widths = [sum(c for _, c in cells) for rep, cells in tb["rows"] for _ in range(rep)]
+        rw = widths[j]
+        xforms = [f for f in xforms if f != ("i", x - w)] + ([("i", x - rw)] if 0 <= x < rw else [])
     zz, t = min(w - 1, x + rng.randint(0, 2)), min(h - 1, y + rng.randint(0, 2))
     areaforms = [("s", cell_name(x, y) + ":" + cell_name(zz, t)), ("t", [x, y, zz, t]), ("t", [x - w, y - h, zz - w, t - h]), ("s", cell_name(x, y).lower() + ":" + cell_name(zz, t).lower())]
     if m in ("SetSpan", "DelSpan"):
         forms = areaforms
     elif m == "Transpose":
-        forms = areaforms
+        r_ = rng.random()
+        forms = areaforms if r_ < .7 else [None] if r_ < .8 else [("s", ""), ("s", ":"), ("t", [None, None, None, None])] if r_ < .9 else \
+            [("s", "%d:%d" % (y + 1, t + 1)), ("t", [y, t]), ("t", [y - h, t - h])]
     elif m in ("SetValue", "SetCell", "InsertCell", "RowSetCell"):
         forms, arg = (cellforms if m != "RowSetCell" else [f for f in xforms if f[1] != cell_name(x, y)] + [("s", cell_name(x, j))]), nv[0]
     elif m == "DeleteCell":
@@ -924,7 +968,8 @@ def do_write(odfdo, xml, m, j, f, arg, spec_area=None):
     if m in ("SetSpan", "DelSpan", "Transpose"):
         if m == "DelSpan":
             t.set_span(tuple(spec_area))
-        call = "FormsOnly %d" % {"SetSpan": 1, "DelSpan": 2, "Transpose": 3}[m]
+        call = {"SetSpan": lambda: "SetSpan %s" % ft, "DelSpan": lambda: "DelSpan %s %s" % (ft, area_term(spec_area)),
+                "Transpose": lambda: "Transpose %s" % oft}[m]()
         r = guarded({"SetSpan": lambda: t.set_span(a), "DelSpan": lambda: t.del_span(a), "Transpose": lambda: t.transpose(a)}[m])
         if r[0] == "err":
             return call, "None"
@@ -980,7 +1025,8 @@ def do_write(odfdo, xml, m, j, f, arg, spec_area=None):
         if r[0] == "err":
             return call, "None"
         wrapped = "<table:table>%s</table:table>" % row.serialize()
-        return call, "(Some %s)" % grid_term(abstract_table(wrapped)[1])
+        # the Row object got from a repeated run keeps its repeat attribute: the row itself is what the writer addressed
+        return call, "(Some %s)" % grid_term(abstract_table(wrapped)[1][:1])
     if r[0] == "err":
         return call, "None"
     return call, "(Some %s)" % grid_term(abstract_table(t.serialize())[1])
